@@ -116,7 +116,16 @@ func execGcs(c Case) string {
 		nb, _ := f.NBytes()
 		pb, _ := f.PBytes()
 		npb, _ := f.NPBytes()
-		out := filterObs(f) + " " + hx(nb) + " " + hx(pb) + " " + hx(npb) + queryObs(f, key, a[4])
+		out := filterObs(f) + " " + hx(nb) + " " + hx(pb) + " " + hx(npb)
+		// what the accessors hand out is the caller's: overwrite it, the filter must answer as before
+		raw, _ := f.Bytes()
+		nb = append([]byte{}, nb...)
+		for _, o := range [][]byte{raw, pb, npb} {
+			scribble(o)
+		}
+		nb0, _ := f.NBytes()
+		scribble(nb0)
+		out += queryObs(f, key, a[4])
 		// rebuilt from the serialisations
 		f2, err := gcs.FromNBytes(P, M, nb)
 		scribble(nb) // the caller's buffer is reused (a network read buffer): the rebuilt filter must not notice
@@ -163,6 +172,8 @@ func execGcs(c Case) string {
 				b.AddEntry(unhx(t[1]))
 			case "h":
 				b.SetKeyFromHash(mkHash(unhx(t[1])))
+			case "P": // Preallocate in the middle of a chain must not lose what was added
+				b.Preallocate(uint32(atou(t[1])))
 			case "A": // AddEntries
 				b.AddEntries(expandItems(t[1]))
 			case "w": // w:<ctor>:<key or hash>:<p>:<n>:<m>  one of the With* constructors (a fresh builder)
@@ -474,6 +485,9 @@ func genC14(r *Rng, tier string, emit func(Case)) {
 				ops = append(ops, "h:"+hx(r.Bytes(32)))
 			case 4:
 				ops = append(ops, "A:"+hx(r.Bytes(1+r.Intn(2)))+","+hx(r.Bytes(1+r.Intn(3))))
+				if r.Bool() {
+					ops = append(ops, "P:"+itoa(r.Pick(0, 1, 100)))
+				}
 			default:
 				it := r.Bytes(1 + r.Intn(3))
 				ops = append(ops, "a:"+hx(it))
